@@ -249,7 +249,10 @@ pub fn build<Data: GarnishData>(parse_root: usize, parse_tree: Vec<ParseNode>, d
 
         for end_instruction in end_instructions {
             match last_instruction.clone().and_then(|i| data.get_instruction(i)) {
-                Some(instruction) if instruction == end_instruction => {}
+                // only a repeated end of expression is redundant; a root's other end instructions (the `??` and the jump back
+                // that follow the right operand of `&&` / `||`) must be emitted even when the operand's own code ends in the same
+                // instruction, because a conditional inside the operand joins after its last instruction
+                Some(instruction) if instruction == end_instruction && end_instruction.0 == Instruction::EndExpression => {}
                 _ => {
                     data.push_instruction(end_instruction.0, end_instruction.1)?;
                     instruction_metadata.push(InstructionMetadata::new(None));
